@@ -433,6 +433,35 @@ pub fn check_algo_pair(p: &AlgoPair, info: &mut CaseInfo) -> Result<(), String> 
 	if format!("{a:?}") == "Unknown" {
 		return Err(format!("{na} has no Debug name"));
 	}
+	// lookup is by the exact identifier: neighbours, prefixes and extensions of a registered OID
+	// either are not registered or belong to an algorithm that answers to exactly that OID
+	let oid = rfc_sig_oid(na);
+	let registered: Vec<Vec<u64>> = algos.iter().map(|(n, _)| rfc_sig_oid(n)).collect();
+	let mut variants: Vec<Vec<u64>> = Vec::new();
+	for extra in [0u64, 1, 2, u64::MAX] {
+		let mut v = oid.clone();
+		v.push(extra);
+		variants.push(v);
+	}
+	variants.push(oid[..oid.len() - 1].to_vec());
+	variants.push(oid[..2].to_vec());
+	variants.push(vec![]);
+	for delta in [1u64, 2, 100] {
+		let mut v = oid.clone();
+		*v.last_mut().unwrap() = v.last().unwrap().wrapping_add(delta);
+		variants.push(v);
+	}
+	let mut v = oid.clone();
+	v[0] = (v[0] + 1) % 3;
+	variants.push(v);
+	for q in variants {
+		if registered.contains(&q) {
+			continue;
+		}
+		if let Ok(hit) = rcgen::SignatureAlgorithm::from_oid(&q) {
+			return Err(format!("from_oid({q:?}), which is not a registered identifier, returns {hit:?}"));
+		}
+	}
 	Ok(())
 }
 
